@@ -8,7 +8,8 @@
 // until the end of the session and re-read then, so a pooled buffer recycled under a live value shows.
 //
 // usage: wsrace <N> <procs> <seed> <mix> <rounds>
-//   mix: letters cycled over the N sessions: U upgrader, H http upgrader, D dialer, M messages, Z compression
+//   mix: letters cycled over the N sessions: U upgrader, H http upgrader, D dialer, M messages, Z compression,
+//        K control-frame storm
 // stdout: same=<0|1> self=<0|1> diff=<index:kind:field|-> sessions=<N> ops=<total>
 // The race detector reports on stderr (GORACE=halt_on_error=0 exitcode=0 is set by the caller).
 package main
@@ -158,6 +159,70 @@ func (s *session) run(steps int) {
 		s.messages(r, steps)
 	case 'Z':
 		s.compressed(r, steps)
+	case 'K':
+		s.controls(r, steps*4)
+	}
+}
+
+// controls: a storm of control frames of every length through the control handler (which takes its reply
+// buffers from the byte pool): pings must be answered with the identical payload, closes with the same
+// code, invalid closes (which take the protocol-error path) with 1002.
+func (s *session) controls(r *rng, steps int) {
+	for k := 0; k < steps; k++ {
+		s.ops++
+		server := (s.idx+k)%2 == 0
+		var in, out bytes.Buffer
+		wr := func(f ws.Frame) {
+			if server {
+				f = ws.MaskFrame(f)
+			}
+			ws.WriteFrame(&in, f)
+		}
+		var want string
+		n := r.intn(126)
+		switch k % 4 {
+		case 0, 1:
+			p := bytes.Repeat([]byte{byte('A' + (s.idx+k)%26)}, n)
+			wr(ws.NewPingFrame(p))
+			want = fmt.Sprintf("[true 0 10 %v %d %s]", !server, n, dig(p))
+		case 2:
+			if n < 2 {
+				n = 2
+			}
+			body := ws.NewCloseFrameBody(ws.StatusNormalClosure, strings.Repeat("r", n-2))
+			wr(ws.NewCloseFrame(body))
+			want = fmt.Sprintf("[true 0 8 %v 2 03e8]", !server)
+		default:
+			if n < 2 {
+				n = 2
+			}
+			body := append([]byte{0x03, 0xed}, bytes.Repeat([]byte{byte('a' + (s.idx+k)%26)}, n-2)...) // 1005: not to be sent
+			wr(ws.NewCloseFrame(body))
+			want = "close-1002"
+		}
+		// a data frame behind it so that ReadData has something to return after a ping
+		wr(ws.NewTextFrame([]byte("x")))
+		runtime.Gosched()
+		var err error
+		if server {
+			_, _, err = wsutil.ReadClientData(rw{&in, &out})
+		} else {
+			_, _, err = wsutil.ReadServerData(rw{&in, &out})
+		}
+		got := unmaskFrames(out.Bytes())
+		s.rec("K%d server=%v n=%d err=%v reply=%s", k, server, n, err, got)
+		if want == "close-1002" {
+			f, ferr := ws.ReadFrame(bytes.NewReader(out.Bytes()))
+			if ferr == nil && f.Header.Masked {
+				ws.Cipher(f.Payload, f.Header.Mask, 0)
+			}
+			if ferr != nil || f.Header.OpCode != ws.OpClose || len(f.Payload) < 2 || f.Payload[0] != 0x03 || f.Payload[1] != 0xea || f.Header.Masked == server {
+				s.fail("K%d: invalid close answered with %s", k, got)
+			}
+		} else if got != want {
+			s.fail("K%d: reply %s, want %s", k, got, want)
+		}
+		runtime.Gosched()
 	}
 }
 
